@@ -33,7 +33,7 @@ Prons4 == {<<>>, P1, P3, <<"BAD">>}
 P4 == <<"QQ", "QQ", "P", "QQ">>
 P22 == <<"QQ", "P">>
 PronsD == {P1, P2, P22, P3, P4, <<"QQ", "BAD">>}
-Sp4 == {sa, sa2, sb, sA}
+Sp3 == {sa, sa2, sb}
 MCPhones == {"P", "QQ"}
 MCPhoneLen == ("P" :> 1) @@ ("QQ" :> 2) @@ ("BAD" :> 3)
 
